@@ -46,6 +46,7 @@ fn case(t: Tier) -> BoxedStrategy<Case> {
             ccfg.w_add = 15;
             ccfg.w_cancel = 8;
             ccfg.w_upd_qty = 8;
+            ccfg.w_bulk = 0;
             let profile = prefix.profile;
             (Just(prefix), 0u8..4, proptest::collection::vec(op_strategy(ccfg, profile), 1..=8))
         })
@@ -220,6 +221,8 @@ pub fn witness_kf() -> Case {
             pool: vec![IdSpec::FromU64(1), IdSpec::FromU64(2)],
             ops: vec![Op::Add { slot: 0, spec: s(10, 5) }, Op::Add { slot: 40000, spec: s(10, 2) }],
             ghost: None,
+            hold: false,
+            gen_start: 0,
         },
         path: 0,
         continuation: vec![Op::Match { size: MatchSize::Exact(4) }],
